@@ -15,9 +15,9 @@
                and the pool writes into a block only while it is not outstanding (`OFree g`, `ORemove r g`, `Scribble` on Free).
                C09_newbuffer_layout_and_blockindex_roundtrip (blocks pairwise disjoint, disjoint from meta_ranges, inside the
                buffer), C09_block1_layout, C09_chain_push / C09_chain_take (the free chain is threaded through FREE blocks only).
-   A_size      the block is at least sizeof(pointer) bytes: requested by pvCreateRawMemPool (max(totalSize, sizeof(pointer))), kept by
-               MemPoolParams: C09_params_corrected_ok (the corrected block size passes pvCheckParams) -- NOT fully discharged by a
-               C09 theorem ("corrected size >= requested size" is not stated there); C19's oracle measures block >= 8 on 10 configurations.
+   A_size      the block is at least sizeof(pointer) bytes and at least the row size.  DISCHARGED INSIDE C19 (round 6): RawPoolSize.v,
+               C19_raw_block_holds_link_word, about the regenerated pvCreateRawMemPool size computation and CorrectBlockSize, for every
+               column list, alignment and block count (C09_params_corrected_ok says the corrected size passes pvCheckParams).
    A_count     GetAllocateCount() = number of outstanding blocks (used by C19's ORACLE only, not by the machine).
                C09_model_no_block_twice_count_exact (acount = length live), C09_model_count_zero_iff_all_returned.
    A_owner     the pool is used by one thread: every Allocate / Deallocate is in pvAllocateRaw / pvDeallocateFreeRaws / pvDestroyRaw /
